@@ -319,6 +319,11 @@ func corpus() []tcase {
 		{"5 1800 604800", []string{"cs 0 1 1", "ref 0 A1", "val 0 A2", "val 0 A1", "dump 0"}, "corpus_access_token_used_as_refresh_token"},
 		{"5 600 7200", []string{"ct 0 3 3", "val 0 A1", "ref 0 A1", "val 0 A1", "dump 0", "cs 0 0 0", "val 0 A3", "val 660 A3", "dump 660"}, "corpus_create_token_and_empty_identity"},
 		{"5 600 7200", []string{"cs 0 1 1", "ref 7260 R1", "val 7260 A1", "dump 7260"}, "corpus_refresh_token_expired"},
+		// thorough seed 1 false alarm, minimised: the refreshed token (empty role: store fallback only) is valid when issued;
+		// the refresh lifetime is inherited (7200), so Refresh(R2) at 7380 answers "expired refresh token" and its cleanup
+		// removes A2 (expiry 10680) too. With a non-empty role the signed fast path keeps accepting A2.
+		{"0 3600 7200", []string{"cs 0 2 0", "ref 7080 R1", "val 7080 A2", "val 7140 A2", "ref 7380 R2", "val 7440 A2", "dump 7440"}, "corpus_expired_refresh_cleanup_removes_unexpired_access_token"},
+		{"0 3600 7200", []string{"cs 0 2 1", "ref 7080 R1", "val 7080 A2", "ref 7380 R2", "val 7440 A2", "dump 7440"}, "corpus_expired_refresh_cleanup_signed_token_survives"},
 	}
 }
 
@@ -330,6 +335,7 @@ type issuedTok struct {
 	secretNo   int
 	revoked    bool
 	rotated    bool
+	cleanedUp  bool // the code's own answer "expired refresh token" shows that Refresh's cleanup removed this session's records
 }
 
 func evaluate(s *hx.Session, c tcase, outs []string) {
@@ -345,6 +351,7 @@ func evaluate(s *hx.Session, c tcase, outs []string) {
 	}
 	j := 0
 	var lastRefreshed, lastRefreshArg string
+	var lastRefreshedAt int64 // the instant of the successful Refresh that returned lastRefreshed
 	for i, op := range c.ops {
 		out := outs[i]
 		s.Op(op, out)
@@ -405,9 +412,22 @@ func evaluate(s *hx.Session, c tcase, outs []string) {
 				old.rotated = true
 				acc[j] = &issuedTok{user: old.user, role: old.role, exp: T + ttl, secretNo: secret}
 				hasR[j] = true
-				lastRefreshed, lastRefreshArg = fmt.Sprintf("A%d", j), f[2]
+				lastRefreshed, lastRefreshArg, lastRefreshedAt = fmt.Sprintf("A%d", j), f[2], T
 			} else {
 				s.Hit("refresh_" + out)
+				// "expired refresh token" is answered only after Refresh found the presented key in the table and ran
+				// removeSessionRecord on the record under it: the session of that (unmodified, issued) token is torn down
+				// by the code's cleanup from here on - its access token may have an expiry of its own that is later
+				// (Refresh hands out a full ttl but the refresh lifetime is inherited from the first session).
+				if out == "err:expired-refresh" && len(b) == 1 && (b[0][0] == 'A' || b[0][0] == 'R') {
+					if k, ok := pairOf(b[0]); ok && acc[k] != nil && (b[0][0] == 'A' || hasR[k]) {
+						acc[k].cleanedUp = true
+						s.Hit("expired_refresh_cleanup_of_issued_session")
+						if T <= acc[k].exp {
+							s.Hit("expired_refresh_cleanup_removes_unexpired_access_token")
+						}
+					}
+				}
 			}
 		case "val":
 			s.Hit("op_validate")
@@ -420,8 +440,18 @@ func evaluate(s *hx.Session, c tcase, outs []string) {
 				s.Hit("validate_" + out)
 				if f[2] == lastRefreshed {
 					k, _ := pairOf(b[0])
-					if acc[k] != nil && T <= acc[k].exp && !acc[k].revoked {
+					switch t := acc[k]; {
+					case t == nil || t.revoked || t.cleanedUp:
+						// torn down by an earlier op of this history (RevokeToken, or the cleanup Refresh runs when it is
+						// presented with the session's expired refresh token): the statement promises nothing for it any more
+						if t != nil && t.cleanedUp && !t.revoked {
+							s.Hit("refreshed_token_rejected_after_expired_session_cleanup")
+						}
+					case T == lastRefreshedAt:
 						s.Fail("C35/refreshed-token-invalid-when-issued", "the access token returned by a successful Refresh does not validate at the instant it was issued", op+" -> "+out)
+					case T <= t.exp:
+						// later than the statement's "valid when issued", kept so that nothing the oracle used to catch is lost
+						s.Fail("C35/refreshed-token-invalid-before-its-expiry", fmt.Sprintf("the access token returned by the successful Refresh at %d is rejected at %d, before its expiry %d, although no RevokeToken, no later Refresh and no expired-session cleanup touched its session", lastRefreshedAt, T, t.exp), op+" -> "+out)
 					}
 				}
 				break
